@@ -13,7 +13,7 @@ from .. import AnalysisError
 from ..pm import dotted, src
 from ..q import FA, call_name, walk_no_nested
 from ..resolve import resolver
-from ..rules import api, attr, sig, undef
+from ..rules import api, arity, attr, sig, undef
 
 TECHNIQUE = "whole-package attribute-existence (R-ATTR), call-signature conformance incl. overrides (R-SIG), third-party API existence (R-API), definite assignment with syntactic path feasibility (R-UNDEF), undefined names (R-NAME), registry/branch-table agreement (R-REG), validation-before-sampling order (R-ORDER)"
 
@@ -51,6 +51,12 @@ def run(ctx):
     ctx.extra["calls_resolved"] = res.resolved_calls
     ctx.extra["calls_unresolved_or_external"] = res.unresolved_calls
     ctx.floor("C20.2", 600)
+
+    # C20.2 R-ARITY -----------------------------------------------------
+    def ob_ar(f, st, g, ok, detail):
+        ctx.ob("R-ARITY", "C20.2", f, f"result of {g.qual.split(':')[-1]} is unpacked / used with the arity it returns", ok, detail, node=st)
+
+    arity.scan(prog, fns, ob_ar)
 
     # C20.4 R-API -------------------------------------------------------
     def ob_api(m, f, node, path, ok, detail):
@@ -161,6 +167,7 @@ MUTANTS = [
     {"id": "stale-attr-ins-proposal", "file": _INS, "old": "minlength=(self.proposal.n_proposals),", "new": "minlength=(self.proposal.n_levels),", "expect": "read self.proposal.n_levels"},
     {"id": "bad-keyword", "file": _NS, "old": "self.proposal.reset_model_weights(weights=True, permutations=True)", "new": "self.proposal.reset_model_weights(weights=True, permutation=True)", "expect": "reset_model_weights"},
     {"id": "bad-keyword-override", "file": _INS, "old": "        super().checkpoint(\n            periodic=periodic,\n            force=force,\n            save_existing=self.save_existing_checkpoint,", "new": "        super().checkpoint(\n            periodic=periodic,\n            force=force,\n            keep_existing=self.save_existing_checkpoint,", "expect": "checkpoint"},
+    {"id": "tuple-arity", "file": _INS, "old": "        new_samples, log_q = self.draw_n_samples(n)\n        new_samples[\"it\"] = self.iteration\n", "new": "        new_samples, log_q, _ = self.draw_n_samples(n)\n        new_samples[\"it\"] = self.iteration\n", "expect": "draw_n_samples"},
     {"id": "too-many-positionals", "file": _NS, "old": "index = self.insert_live_point(proposed)", "new": "index = self.insert_live_point(proposed, self.iteration)", "expect": "insert_live_point"},
     {"id": "missing-numpy-api", "file": _INS, "old": "idx = np.argsort(samples, order=\"logL\")", "new": "idx = np.argsort_stable(samples, order=\"logL\")", "expect": "numpy.argsort_stable"},
     {"id": "unbound-local", "file": _NS, "old": "        if flow_config is None:\n            flow_config = {}\n        obj._flow_proposal.resume(model, flow_config, weights_path)", "new": "        if flow_config is None:\n            cfg = {}\n        obj._flow_proposal.resume(model, cfg, weights_path)", "expect": "local `cfg`"},
